@@ -742,6 +742,9 @@ func TestVerifC02(t *testing.T) {
 	if only == "" || only == "S" {
 		c02PartS(t, res, &item)
 	}
+	if only == "" || only == "T" {
+		c02tPart(t, res)
+	}
 	res.Max("mem_sys_mb", c02MemMB())
 	// vacuity guards
 	if only == "" {
